@@ -1050,6 +1050,10 @@ class Discharger:
                 base = recv["recv"]
             if base is not None and rx.var_name(base) is not None:
                 return self.first_unwrap(f, node, dict(recv, recv=base))
+        if recv["k"] == "call" and recv["f"]["k"] == "path" and len(recv["args"]) > 1:
+            r_nc = self.nonempty_concrete(f, recv)
+            if r_nc is not None:
+                return r_nc
         if recv["k"] == "call" and recv["f"]["k"] == "path" and len(recv["args"]) == 1:
             hname = recv["f"]["segs"][-1]
             h = next((x for x in self.f.fns.values() if x.name == hname and not x.test), None)
@@ -1145,6 +1149,39 @@ class Discharger:
             if p["t"] in ("reptill", "rep", "sep"):
                 return p["min"] >= 1, "nonempty", "`%s` is the result of %s with lower bound %d" % (name, p["t"], p["min"])
         return None, "nonempty", "origin of `%s` not recognised" % name
+
+    def nonempty_concrete(self, f, recv):
+        """`helper(CONST.., text).unwrap()` where `text` is what a character run over a small alphabet matched: the call is
+        evaluated on every text of one to three characters of that alphabet and must yield Some each time (bounded, like the
+        symbolic form: the helper's loop over the characters is taken to treat a fourth character as it treats the third)"""
+        import itertools
+        from .. import probe as P
+
+        fb = self.b.fn_ir(f.key)
+        bnd = self.g.bindings(fb)
+        idx = [i_ for i_, a_ in enumerate(recv["args"]) if rx.var_name(rx.peel(a_)) in bnd and bnd[rx.var_name(rx.peel(a_))]["t"] == "set"]
+        if len(idx) != 1:
+            return None
+        arg = rx.var_name(rx.peel(recv["args"][idx[0]]))
+        n = bnd[arg]
+        if not (n["cs"][0] == "in" and 1 <= len(n["cs"][1]) <= 8):
+            return None
+        bad, cnt = None, 0
+        try:
+            for ln in (1, 2, 3):
+                for tup in itertools.product(sorted(n["cs"][1]), repeat=ln):
+                    pr = P.Probe(self.f, norm_ty(f.impl["self_ty"]) if f.impl is not None else None, f.module)
+                    pr.cur.append(f)
+                    r_ = pr.ev(recv, {arg: "".join(tup)})
+                    cnt += 1
+                    if not (isinstance(r_, tuple) and len(r_) == 2 and r_[0] == "some"):
+                        bad = "".join(tup)
+                        break
+                if bad:
+                    break
+        except (P.NoEval, P.Panic) as ex:
+            return None
+        return n["min"] >= 1 and bad is None, "nonempty", "`%s` is parsed by %s{%d,}: `%s` evaluated on each of the %d texts of one to three of these characters yields Some%s" % (arg, peg.cs_show(n["cs"]), n["min"], src(recv)[:60], cnt, "" if bad is None else " — EXCEPT on %r" % bad)
 
     def nonempty_symbolic(self, f, recv):
         fb = self.b.fn_ir(f.key)
